@@ -300,6 +300,12 @@ func cmdForAsm(args []string) {
 	for k := 0; k < *n; k++ {
 		p := genForProgram(r)
 		cfg := p.cfg()
+		if r.Intn(3) == 0 {
+			// an unrelated, broken assembly in between (truncated inside nested blocks, missing ROF, bad count):
+			// whatever it leaves behind must not influence the next program
+			poison := []string{"i for 2\nj for 2\n dat i, j\n", "a for 3\n dat a\n", "for 2\nfor 2\nfor 2\n dat 0\nrof\n", "x for y\n dat 0\nrof\n", "i for 2\n dat i\nrof\nrof\n", "q for 1/0\nrof\n"}
+			compileResult(poison[r.Intn(len(poison))], cfg)
+		}
 		var res, texts []string
 		for v := 0; v < 2; v++ {
 			o := &renderOpts{r: r, plain: v == 0}
